@@ -221,6 +221,14 @@ def safe_canon_creation(v):
         return ("cyclic",)
 
 
+class _KindedList(list):
+    """call events in canonical (kind-normalised) form, with the raw kind of each event kept alongside"""
+
+    def __init__(self):
+        super().__init__()
+        self.kinds = []
+
+
 def late_mutation(world):
     """True if some mutable object was changed *after* it had been passed to a call or applied as state: the reference VM
     then performed the call with a value that a source-level rendering which mutates literals in place cannot show."""
@@ -246,7 +254,7 @@ def events(world):
     imports: ("import", module, name)
     calls:   ("call"|"new"|"persid", canonical callee, canonical args)   [setstate/setitem separately]
     """
-    imports, calls, others = [], [], []
+    imports, calls, others = [], _KindedList(), []
     for ev in world.log:
         k = ev[0]
         if k == "import":
@@ -255,6 +263,7 @@ def events(world):
         elif k in ("call", "new", "persid"):
             inst = ev[1]
             calls.append(safe_canon_creation(inst))
+            calls.kinds.append(k)
         elif k == "setstate":
             others.append((k, safe_canon_creation(ev[1]), ev[2]))
         else:
